@@ -3,9 +3,16 @@ module verif/harness
 go 1.23.0
 
 require (
-	evylang.dev/evy v0.0.0
+	evylang.dev/evy v0.1.207
 	evylang.dev/evy/learn v0.0.0
 	pgregory.net/rapid v1.3.0
+)
+
+require (
+	golang.org/x/text v0.21.0 // indirect
+	golang.org/x/tools v0.29.0 // indirect
+	gopkg.in/yaml.v3 v3.0.1 // indirect
+	rsc.io/markdown v0.0.0-20241212154241-6bf72452917f // indirect
 )
 
 replace evylang.dev/evy => /repo
